@@ -180,6 +180,7 @@ func runC19(c *Ctx) {
 	c19CheckMode(c, p)
 	c19JSON(c, p)
 	c19OptionNormalisation(c, c.P)
+	c19OptionsAgree(c, c.P)
 }
 
 func c19Helper(c *Ctx, p *core.Prog, h *ssa.Function, fns []*ssa.Function) {
